@@ -92,7 +92,7 @@ PROPS['C08'] = {
 
 PROPS['C09'] = {
     'kani': {
-        'quick': [krun(['c09::q::'], timeout=900, bounds='N <= 5, element sizes 0/1/8/24 bytes, symbolic contents, symbolic index; split at K in {0,1,2,4}; remove/swap_remove with every idx < N, and every idx >= N (must panic)')],
+        'quick': [krun(['c09::q::', 'c03::q::seq::rm'], timeout=900, bounds='N <= 5 (remove: also 7; drop-tracked remove / swap_remove from the C03 harnesses), element sizes 0/1/8/24 bytes, symbolic contents, symbolic index; split at K in {0,1,2,4}; remove/swap_remove with every idx < N, and every idx >= N (must panic)')],
         'thorough': [krun(['c09::'], timeout=2400, bounds='N <= 8 plus 15,16,17,33; more (N,K) pairs')],
     },
     'functions': ['Lengthen::{append,prepend}', 'Shorten::{pop_back,pop_front}', 'Split::split (owned, &, &mut)', 'Concat::concat', 'Remove::{remove,swap_remove,remove_unchecked,swap_remove_unchecked}'],
